@@ -17,6 +17,8 @@ enum Op {
     BuildA2,
     BuildAPrime,
     BuildBad,
+    /// another valid configuration, unrelated to A
+    BuildB,
     ScanShared,
     ScanShared2,
     PeekShared,
@@ -36,12 +38,17 @@ fn modes_a_prime() -> Vec<ScannerMode> {
     m
 }
 
+fn modes_b() -> Vec<ScannerMode> {
+    vec![ScannerMode::new("OTHER", vec![Pattern::new("[ab]+".into(), 3), Pattern::new("x".into(), 1)], vec![])]
+}
+
 fn modes_bad() -> Vec<ScannerMode> {
     vec![ScannerMode::new("INITIAL", vec![Pattern::new("a".into(), 0), Pattern::new("(?i)b".into(), 1)], vec![])]
 }
 
-const INPUT: &str = "abÉ1b Bba";
-const INPUT2: &str = "1Éab";
+// both inputs contain characters no pattern matches (x, é, ü) in both modes
+const INPUT: &str = "xabÉé1b xBba";
+const INPUT2: &str = "ü1Éxab";
 
 type Obs = Result<Vec<(usize, usize, usize)>, String>;
 
@@ -74,6 +81,7 @@ fn run_op(op: Op, shared: &Scanner) -> Obs {
         Op::BuildA | Op::BuildA2 => ScannerBuilder::new().add_scanner_modes(&modes_a()).build().map(|s| scan(&s)).map_err(|_| "err".to_string()),
         Op::BuildAPrime => ScannerBuilder::new().add_scanner_modes(&modes_a_prime()).build().map(|s| scan(&s)).map_err(|_| "err".to_string()),
         Op::BuildBad => ScannerBuilder::new().add_scanner_modes(&modes_bad()).build().map(|s| scan(&s)).map_err(|_| "err".to_string()),
+        Op::BuildB => ScannerBuilder::new().add_scanner_modes(&modes_b()).build().map(|s| scan(&s)).map_err(|_| "err".to_string()),
         Op::ScanShared => Ok(scan(shared)),
         Op::ScanShared2 => Ok(scan2(shared)),
         Op::PeekShared => Ok(peek(shared)),
@@ -87,6 +95,7 @@ fn expected(op: Op) -> Obs {
         Op::BuildA | Op::BuildA2 => unc(modes_a()).map(|s| scan(&s)).map_err(|_| "err".to_string()),
         Op::BuildAPrime => unc(modes_a_prime()).map(|s| scan(&s)).map_err(|_| "err".to_string()),
         Op::BuildBad => unc(modes_bad()).map(|s| scan(&s)).map_err(|_| "err".to_string()),
+        Op::BuildB => unc(modes_b()).map(|s| scan(&s)).map_err(|_| "err".to_string()),
         Op::ScanShared => Ok(scan(&unc(modes_a()).unwrap())),
         Op::ScanShared2 => Ok(scan2(&unc(modes_a()).unwrap())),
         Op::PeekShared => Ok(peek(&unc(modes_a()).unwrap())),
@@ -101,7 +110,7 @@ struct HarnessResult {
 }
 
 /// Explores all schedules of one harness body: `scripts[t]` is run by thread t.
-fn explore(scripts: &[Vec<Op>], bound: Option<usize>, max_branches: usize, budget_s: f64) -> HarnessResult {
+fn explore(scripts: &[Vec<Op>], bound: Option<usize>, max_branches: usize, budget_s: f64, prefill: usize) -> HarnessResult {
     let started = std::time::Instant::now();
     let execs = Arc::new(AtomicUsize::new(0));
     let outcomes: Arc<Mutex<BTreeSet<String>>> = Arc::new(Mutex::new(BTreeSet::new()));
@@ -133,11 +142,14 @@ fn explore(scripts: &[Vec<Op>], bound: Option<usize>, max_branches: usize, budge
                     Op::BuildAPrime => {
                         k.insert("A'");
                     }
+                    Op::BuildB => {
+                        k.insert("B");
+                    }
                     _ => {}
                 }
             }
         }
-        k.len() + 1 // + the shared scanner's configuration (A), built first
+        k.len() + 1 + prefill // + the shared scanner's configuration (A), built first
     };
     let want_keys = if scripts.iter().flatten().any(|o| matches!(o, Op::BuildA | Op::BuildA2)) { want_keys - 1 } else { want_keys };
     let scripts_owned: Vec<Vec<Op>> = scripts.to_vec();
@@ -151,6 +163,11 @@ fn explore(scripts: &[Vec<Op>], bound: Option<usize>, max_branches: usize, budge
         b.check(move || {
             e2.fetch_add(1, Ordering::Relaxed);
             // the shared scanner comes from the cache as well (so that scans race with builds of the same entry)
+            // a cache that already holds `prefill` other configurations (bounded caches, eviction)
+            for k in 0..prefill {
+                let m = vec![ScannerMode::new("FILL", vec![Pattern::new(format!("f{k}"), k)], vec![])];
+                let _ = ScannerBuilder::new().add_scanner_modes(&m).build();
+            }
             let shared = Arc::new(ScannerBuilder::new().add_scanner_modes(&modes_a()).build().expect("A builds"));
             let hs: Vec<_> = scripts_owned
                 .iter()
@@ -279,9 +296,9 @@ fn main() {
     for body in &bodies {
         // all schedules (no preemption bound); a body whose schedule space does not close within
         // the budget is explored again completely under preemption bound 2
-        let mut r = explore(body, None, 200_000, budget);
+        let mut r = explore(body, None, 200_000, budget, 0);
         if r.capped && r.violation.is_none() {
-            let r2 = explore(body, Some(2), 200_000, budget * 2.0);
+            let r2 = explore(body, Some(2), 200_000, budget * 2.0, 0);
             bounded += 1;
             r = HarnessResult { executions: r.executions + r2.executions, outcomes: r.outcomes.max(r2.outcomes), violation: r2.violation, capped: r2.capped };
         }
@@ -304,6 +321,47 @@ fn main() {
             break;
         }
     }
+    // the same races on a cache that is already well filled (bounds such as 16, 128, 256, 1000,
+    // 1024 are typical for a bounded cache): builds of distinct new configurations and of a failing one
+    let mut prefilled = vec![];
+    for prefill in [130usize, 1030] {
+        for body in [vec![vec![Op::BuildAPrime], vec![Op::BuildBad]], vec![vec![Op::BuildAPrime, Op::BuildA2], vec![Op::BuildAPrime]], vec![vec![Op::BuildAPrime], vec![Op::ScanShared], vec![Op::BuildA]]] {
+            if prefill > 200 && tier == Tier::Quick && body.len() == 3 {
+                continue;
+            }
+            let r = explore(&body, None, 400_000, budget * 4.0, prefill);
+            total_exec += r.executions;
+            total_outcomes += r.outcomes;
+            if r.capped {
+                capped += 1;
+            }
+            prefilled.push(json!({"prefill": prefill, "threads": format!("{body:?}"), "executions": r.executions, "capped": r.capped}));
+            if let Some(v) = r.violation {
+                viol.add("", || Violation { key: String::new(), summary: format!("cache pre-filled with {prefill} other configurations, threads {body:?}: {v}"), replay: json!({"prefill": prefill, "threads": format!("{body:?}"), "problem": v, "how": "build `prefill` distinct one-pattern configurations through the cache, then run the threads; loom::model over scnr built with feature verif_loom"}) });
+            }
+        }
+    }
+    // capacity sweep: two threads miss with two distinct new configurations while the cache holds
+    // exactly C-4 .. C+1 other entries, for every typical bound C of a bounded cache
+    let bounds: &[usize] = if tier == Tier::Quick { &[8, 16, 32, 64, 100, 128, 256] } else { &[2, 4, 8, 10, 16, 20, 32, 50, 64, 100, 128, 200, 250, 256, 500, 512, 1000, 1024] };
+    let mut fills: Vec<usize> = bounds.iter().flat_map(|c| (c.saturating_sub(4)..=c + 1)).collect();
+    fills.sort();
+    fills.dedup();
+    let mut sweep_exec = 0usize;
+    for &prefill in &fills {
+        let body = vec![vec![Op::BuildAPrime], vec![Op::BuildB]];
+        let r = explore(&body, None, 400_000, budget * 4.0, prefill);
+        total_exec += r.executions;
+        sweep_exec += r.executions;
+        if r.capped {
+            capped += 1;
+        }
+        if let Some(v) = r.violation {
+            viol.add("", || Violation { key: String::new(), summary: format!("cache pre-filled with {prefill} other configurations, threads {body:?}: {v}"), replay: json!({"prefill": prefill, "threads": format!("{body:?}"), "problem": v, "how": "build `prefill` distinct one-pattern configurations through the cache, then two threads build two distinct new configurations; loom::model over scnr built with feature verif_loom"}) });
+            break;
+        }
+    }
+    prefilled.push(json!({"capacity_sweep": {"typical_bounds": bounds, "prefill_values": fills.len(), "threads": "[[BuildAPrime], [BuildB]]", "executions": sweep_exec}}));
     let unexplored = bodies.len() - explored_bodies;
     let n_dis = viol.total();
     viol.flush(&mut run);
@@ -322,6 +380,7 @@ fn main() {
     cov.insert("bodies_with_more_than_one_observed_outcome".into(), json!(multi_outcome_bodies));
     cov.insert("bodies_capped".into(), json!(capped));
     cov.insert("preemption_bound".into(), json!("none (2 for the bodies counted above)"));
+    cov.insert("bodies_on_a_prefilled_cache".into(), json!(prefilled));
     cov.insert("send_sync_probe".into(), probe);
     cov.insert("operations".into(), json!(["build(A)", "build(A) again", "build(A' = A with the lookahead polarity flipped)", "build(Bad = unsupported construct)", "scan of input 1 with a shared Arc<Scanner> (built through the cache; patterns include Unicode classes)", "scan of input 2 with the shared scanner", "find_iter + next + peek_n(3) + drain on the shared scanner"]));
     cov.insert("disagreeing_bodies".into(), json!(n_dis));
